@@ -466,22 +466,101 @@ func c27honest(r *vh.Run, size int, item *int) {
 	}
 }
 
+// c27history: call histories on ONE caller-owned buffer.  A path is generated for a member of list A, then the
+// caller edits / refills the same backing array in place (list B: one leaf replaced at position j, or all leaves
+// replaced, or the list shortened / grown inside the same array) and asks for the path of every member of B.  Every
+// generated path must prove its member against B's root: the result may depend on the list given, not on an
+// earlier call (complete over list sizes 1..max, every first member, every edit position, every second member).
+func c27history(r *vh.Run, min, max int, item *int) {
+	other := func(i int) []byte { return append([]byte("verif-xstate-second-generation-"), byte(i), byte(i>>8)) }
+	for size := min; size <= max; size++ {
+		for first := 0; first < size; first++ {
+			*item++
+			if !r.Mine(*item) && !r.IsReplay() {
+				continue
+			}
+			if r.Expired() {
+				return
+			}
+			// edits: -1 = replace every leaf; j>=0 = replace leaf j; size+1.. = also change the length
+			for edit := -1; edit < size+2; edit++ {
+				buf := make([]common.Uint256, size, size+1)
+				vals := make([][]byte, size, size+1)
+				for i := 0; i < size; i++ {
+					vals[i] = c27value(i)
+					buf[i] = HashLeaf(vals[i])
+				}
+				if _, err := MerkleLeafPath(vals[first], buf); err != nil {
+					r.Violationf("history:first-path-failed", map[string]interface{}{"size": size, "member": first}, "list size %d member %d: %v", size, first, err)
+					continue
+				}
+				kind := "one-leaf-replaced"
+				switch {
+				case edit == -1:
+					kind = "all-leaves-replaced"
+					for i := 0; i < size; i++ {
+						vals[i] = other(i)
+						buf[i] = HashLeaf(vals[i])
+					}
+				case edit < size:
+					vals[edit] = other(edit)
+					buf[edit] = HashLeaf(vals[edit])
+				case edit == size:
+					kind = "grown-by-one"
+					vals = append(vals, other(size))
+					buf = append(buf, HashLeaf(vals[size]))
+				default:
+					kind = "shortened-by-one"
+					if size == 1 {
+						continue
+					}
+					vals, buf = vals[:size-1], buf[:size-1]
+				}
+				root := TreeHasher{}.HashFullTreeWithLeafHash(append([]common.Uint256(nil), buf...))
+				for second := range vals {
+					var path, got []byte
+					var err error
+					r.Eval(1)
+					r.Trace(1)
+					if p := vh.Catch(func() { path, err = MerkleLeafPath(vals[second], buf) }); p != "" || err != nil {
+						r.Violationf("history:path-generation-failed:"+kind, map[string]interface{}{"size": size, "first": first, "edit": edit, "member": second}, "size %d, after a path for member %d and edit %d: MerkleLeafPath(member %d): %v %s", size, first, edit, second, err, p)
+						continue
+					}
+					if p := vh.Catch(func() { got, err = MerkleProve(path, root) }); p != "" || err != nil || !bytes.Equal(got, vals[second]) {
+						r.Violationf("history:generated-path-not-proved:"+kind, map[string]interface{}{"size": size, "first": first, "edit": edit, "member": second, "path": hex.EncodeToString(path)},
+							"list of %d in a caller-owned buffer: a path was generated for member %d, the buffer was then edited in place (%s, edit %d) and the path generated for member %d of the edited list does not prove it against the edited list's root (err=%v %s)", size, first, kind, edit, second, err, p)
+						continue
+					}
+					r.Class("history:" + kind + ":proved")
+				}
+			}
+		}
+	}
+}
+
 func TestVerif_C27(t *testing.T) {
 	r := vh.Start(t, "C27", "paths")
 	defer r.Finish()
 	advMax := r.Pick(5, 8)
 	honestMax := r.Pick(17, 33)
-	r.Rule("adversary: for every list size s<=S every path value||step* with value in {every member, left||right of every internal node, a non-member, the empty value, a raw leaf hash}, <= depth(s)+1 steps, step = flag {0,1,2} x hash {every leaf/internal/root hash of the list's tree, one outside hash} is given to the real MerkleProve with the list's root; state = (hash folded so far by the reference, steps left), transition = one step (no pruning on visited states: every path is executed; states are counted distinct per shard and summed, so a state reached from two values in two shards counts twice); honest: every member of every list of size <= N: generated path proves and returns it, then every single mutation of the path bytes (256 values of each flag byte, 4 values of every other byte, every truncation, extensions by 1..66 bytes, step inserted/removed, sibling replaced by every tree hash, value replaced, 50+ canonical/non-canonical/lying length prefixes). Oracle everywhere: no panic, and a returned value has its HashLeaf in the list")
-	r.Bound(fmt.Sprintf("adversary term space complete for list sizes 1..%d with <= depth+1 steps; honest paths and single mutations for list sizes 1..%d", advMax, honestMax))
+	r.Rule("adversary: for every list size s<=S every path value||step* with value in {every member, left||right of every internal node, a non-member, the empty value, a raw leaf hash}, <= depth(s)+1 steps, step = flag {0,1,2} x hash {every leaf/internal/root hash of the list's tree, one outside hash} is given to the real MerkleProve with the list's root; state = (hash folded so far by the reference, steps left), transition = one step (no pruning on visited states: every path is executed; states are counted distinct per shard and summed, so a state reached from two values in two shards counts twice); honest: every member of every list of size <= N: generated path proves and returns it, then every single mutation of the path bytes (256 values of each flag byte, 4 values of every other byte, every truncation, extensions by 1..66 bytes, step inserted/removed, sibling replaced by every tree hash, value replaced, 50+ canonical/non-canonical/lying length prefixes). histories: for every list size <= H in one caller-owned buffer, a path for every first member, then every in-place edit (one leaf at every position / all leaves / grown / shortened) and the path of every member of the edited list must prove against the edited list's root. Oracle everywhere: no panic, and a returned value has its HashLeaf in the list")
+	r.Bound(fmt.Sprintf("adversary term space complete for list sizes 1..%d with <= depth+1 steps; honest paths and single mutations for list sizes 1..%d; two-call histories on a shared buffer for list sizes 1..%d", advMax, honestMax, r.Pick(9, 17)))
 	r.Assume("sha256 collision resistance is not assumed by the oracle (it only checks membership of what is returned); the list's root is TreeHasher.HashFullTreeWithLeafHash(list) as the state store computes CrossStatesRoot")
 
 	var rc struct {
 		Size int    `json:"size"`
 		Path string `json:"path"`
 		Kind string `json:"kind"`
+		Edit *int   `json:"edit"`
 	}
 	if r.ReplayCase(&rc) && rc.Size > 0 {
 		if r.R.Shard != 0 {
+			return
+		}
+		if rc.Edit != nil {
+			// a two-call history: re-run all histories of that list size
+			item := 0
+			c27history(r, rc.Size, rc.Size, &item)
 			return
 		}
 		l := c27build(r, rc.Size)
@@ -499,6 +578,7 @@ func TestVerif_C27(t *testing.T) {
 	for s := 1; s <= honestMax; s++ {
 		c27honest(r, s, &item)
 	}
+	c27history(r, 1, r.Pick(9, 17), &item)
 	for s := 1; s <= advMax; s++ {
 		if r.Expired() {
 			break
